@@ -65,12 +65,17 @@ def addConstraintNoCheck (g : Grid) (c : Con) : R :=
     else { g := g, thrown := true }
   else { g := addCongruenceNoCheck g c.toCg }
 
-/-- Grid_inlines.hh `add_constraint(c)` -/
+/-- a non-trivial inequality: neither an equality nor flagged inconsistent / tautological -/
+def Con.isHardInequality (c : Con) : Bool := !c.isEquality && !c.inconsistent && !c.tautological
+
+/-- Grid_inlines.hh `add_constraint(c)` (680f35a: a non-trivial inequality is rejected also by a marked-empty grid) -/
 def addConstraint (g : Grid) (c : Con) : R :=
   if g.spaceDim < c.spaceDim then { g := g, thrown := true }
-  else if !g.markedEmpty then addConstraintNoCheck g c else { g := g }
+  else if !g.markedEmpty then addConstraintNoCheck g c
+  else if c.isHardInequality then { g := g, thrown := true }
+  else { g := g }
 
-/-- Grid_public.cc:1266 `add_constraints(cs)`; `csDim` = `cs.space_dimension()` -/
+/-- Grid_public.cc:1266 `add_constraints(cs)`; `csDim` = `cs.space_dimension()`; first the loop that adds them -/
 def addConstraintsLoop : Grid → List Con → R
   | g, [] => { g := g }
   | g, c :: cs =>
@@ -78,6 +83,9 @@ def addConstraintsLoop : Grid → List Con → R
     if r.thrown then r else if r.g.markedEmpty then r else addConstraintsLoop r.g cs
 def addConstraints (g : Grid) (csDim : Nat) (cs : List Con) : R :=
   if g.spaceDim < csDim then { g := g, thrown := true }
+  -- 7218b6b: the whole system is validated first, so that a rejected call leaves the object unchanged (before the
+  -- repair the constraints preceding a non-trivial inequality were applied, and a marked-empty grid did not throw)
+  else if cs.any Con.isHardInequality then { g := g, thrown := true }
   else if g.markedEmpty then { g := g } else addConstraintsLoop g cs
 
 /-- Grid_nonpublic.cc:739 `refine_no_check(c)` -/
